@@ -82,16 +82,22 @@ class Roles:
             m["fetcher"] = None
         m["merger"] = first([b for b in melda if self._calls(b, lambda c, t, x: c.target() == "utils::merge_arrays")])
         m["diff_maker"] = first([b for b in melda if self._calls(b, lambda c, t, x: c.target() == "utils::make_diff_patch")])
-        m["rebuilder"] = first([b for b in melda if self._calls(
-            b, lambda c, t, x: c.path == "std::sync::Mutex::<T>::lock" and c.args and "melda::ArrayDescriptor" in c.args[0])])
+        locks_cache = [b for b in melda if self._calls(
+            b, lambda c, t, x: c.path == "std::sync::Mutex::<T>::lock" and c.args and "melda::ArrayDescriptor" in c.args[0])]
+        walks = [b for b in locks_cache if self._calls(b, lambda c, t, x: c.target() == "revisiontree::RevisionTree::get_parent")]
+        m["rebuilder"] = first(walks or locks_cache)
         m["desc_reader"] = first([b for b in melda if not b.public and b.local_ty(0).startswith("std::result::Result<melda::ArrayDescriptor") and
                                   self._calls(b, lambda c, t, x: c.target() == DS + "::read_object")])
-        if m["merger"] is not None:
-            mg = m["merger"].path
-            m["recon"] = first([b for b in melda if not b.public and b.path != mg and "serde_json::Map<" in b.local_ty(0) and
-                                self._calls(b, lambda c, t, x: c.target() == mg)])
-        else:
-            m["recon"] = None
+        # recon: the private Melda method that `read` calls (in its parallel closure) to produce an object's visible value
+        rd = f.body(MELDA + "::read")
+        cands = []
+        if rd is not None:
+            for x in self._with_closures(rd):
+                for bi, t in x.calls():
+                    tb = f.body(t.callee.target()) if t.callee is not None else None
+                    if tb is not None and tb.impl_adt == MELDA and not tb.public and tb.local_ty(0).startswith("std::result::Result<serde_json::Map<"):
+                        cands.append(tb)
+        m["recon"] = first(cands)
         self.map = m
 
     def body(self, role):
